@@ -3,6 +3,7 @@ package goat
 import (
 	"context"
 	"fmt"
+	"math"
 	"reflect"
 	"strconv"
 	"strings"
@@ -620,6 +621,11 @@ func parseGrpcTimeout(timeout string) (time.Duration, bool) {
 	if timeout == "" {
 		return 0, false
 	}
+	// TimeoutValue is at most 8 digits followed by the unit; ParseInt alone
+	// would also accept a sign and 19 digits.
+	if len(timeout) < 2 || len(timeout) > 9 || timeout[0] < '0' || timeout[0] > '9' {
+		return 0, false
+	}
 	suffix := timeout[len(timeout)-1]
 
 	val, err := strconv.ParseInt(timeout[:len(timeout)-1], 10, 64)
@@ -649,6 +655,10 @@ func parseGrpcTimeout(timeout string) (time.Duration, bool) {
 		return 0, false
 	}
 
+	// 99999999H does not fit 64-bit nanoseconds: saturate instead of wrapping.
+	if val > math.MaxInt64/int64(unit) {
+		return time.Duration(math.MaxInt64), true
+	}
 	return time.Duration(val) * unit, true
 }
 
